@@ -9,7 +9,7 @@ open Threadq_model
 let nat_of_int n = let rec go acc k = if k <= 0 then acc else go (S acc) (k-1) in go O n
 let int_of_nat n = let rec go acc = function O -> acc | S m -> go (acc+1) m in go 0 n
 
-type case = { sockets : bool; evd : bool; fine : bool; n : int; seed : int64 option; sched : (int * bool) list; prog : op list array }
+type case = { sockets : bool; evd : bool; fine : bool; free : bool; n : int; seed : int64 option; sched : (int * bool) list; prog : op list array }
 
 let parse_choice s =
   let l = String.length s in
@@ -39,12 +39,12 @@ let parse_case line =
   | Some p ->
     (try
       let head = String.sub line 0 p and body = String.sub line (p+1) (String.length line - p - 1) in
-      let sockets = ref true and evd = ref false and fine = ref false and n = ref 0 and seed = ref None and sched = ref [] in
+      let sockets = ref true and evd = ref false and fine = ref false and free = ref false and n = ref 0 and seed = ref None and sched = ref [] in
       List.iter (fun h ->
         let l = String.length h in
         if l >= 2 && String.sub h 0 2 = "m=" then (if h = "m=s" then sockets := true else if h = "m=w" then sockets := false else failwith "mode")
         else if l >= 2 && String.sub h 0 2 = "k=" then (if h = "k=d" then evd := false else if h = "k=e" then evd := true else failwith "kind")
-        else if l >= 2 && String.sub h 0 2 = "f=" then (if h = "f=1" then fine := true else if h = "f=0" then fine := false else failwith "fine")
+        else if l >= 2 && String.sub h 0 2 = "f=" then (if h = "f=1" then fine := true else if h = "f=2" then free := true else if h <> "f=0" then failwith "fine")
         else if l >= 2 && String.sub h 0 2 = "n=" then n := int_of_string (String.sub h 2 (l-2))
         else if l >= 5 && String.sub h 0 5 = "seed=" then (if l > 5 && h.[5] <> '-' then seed := Some (Int64.of_string ("0u" ^ String.sub h 5 (l-5))))
         else if l >= 4 && String.sub h 0 4 = "sch=" then
@@ -61,9 +61,10 @@ let parse_case line =
       let n = max 1 (max !n (maxt+1)) in
       if n > 16 then failwith "n";
       if !evd && not !sockets then failwith "event-driven needs sockets";
+      if !free && n <> 1 then failwith "free runs have one thread";
       let prog = Array.make n [] in
       List.iter (fun (t, o) -> prog.(t) <- prog.(t) @ [o]) toks;
-      Some { sockets = !sockets; evd = !evd; fine = !fine; n; seed = !seed; sched = !sched; prog }
+      Some { sockets = !sockets; evd = !evd; fine = !fine; free = !free; n; seed = !seed; sched = !sched; prog }
     with _ -> None)
 
 (* the subclass's reaction to Message <id>: the same function as react() in harness/threadq_h.cpp *)
@@ -112,7 +113,7 @@ let run_case k (c : case) =
   let buf = Buffer.create 1024 in
   let decisions = ref 0 in
   let status = ref "" in
-  let stepf = sys_step absorb_const react in
+  let stepf = sys_step false absorb_const react in      (* false: StartInternalThread as it is now (not the as-found order) *)
   let show (s' : sys) (e : ev) =
     match e with
     | EDump -> Buffer.add_string buf (dump s'.s_g)
@@ -209,4 +210,5 @@ let () =
     match parse_case line with
     | None -> Printf.printf "%d BADCASE\n" k
     | Some c when c.fine -> Printf.printf "%d FINE\n" k     (* judged by the harness's oracle alone *)
+    | Some c when c.free -> Printf.printf "%d FREE\n" k     (* no scheduler: the real blocking primitives; oracle alone *)
     | Some c -> (try run_case k c with Failure m -> Printf.printf "%d MODEL-ERROR %s\n" k m)) lines
